@@ -730,6 +730,7 @@ impl Point {
     /// Given a 256-bit integer k (unsigned, provided as 8 32-bit limbs in
     /// little-endian order, less than the group order r) and a multiplier
     /// integer e (lower than 2^127 - 2), compute y = round(k*e / r).
+    #[cfg_attr(pornin_crrl_verif_cut, inline(never))]
     fn mul_divr_rounded(k: &Zu256, e: &Zu128) -> Zu128 {
         // z <- k*e
         let mut z = k.mul256x128(e);
